@@ -10,6 +10,7 @@ package c09
 import (
 	"fmt"
 	"os"
+	"sort"
 	"runtime"
 	"strconv"
 	"strings"
@@ -261,6 +262,8 @@ func runCase(h *hx.T, posters []poster, choose func(c *ctl, parked []*thread, st
 		if len(parked) == 0 {
 			break
 		}
+		// goroutines register in start order, which the Go scheduler decides: sort so that a seed is reproducible
+		sort.Slice(parked, func(i, j int) bool { return parked[i].name < parked[j].name })
 		th := choose(c, parked, step)
 		pt := th.point
 		op := fmt.Sprintf("step k=%s pt=%s th=%s", th.kind, pt, th.name)
@@ -501,7 +504,9 @@ func TestRun(t *testing.T) {
 	synctest.Test(t, func(t *testing.T) {
 		h := hx.Open()
 		if ops := hx.ReplayOps(); ops != nil {
-			if isQueueOps(ops) { // queue-component witness (ring_test.go)
+			if isMpscConcOps(ops) { // concurrent-mpsc witness (mpsc_test.go)
+				replayMpscOps(h, ops)
+			} else if isQueueOps(ops) { // queue-component witness (ring_test.go)
 				replayQueueOps(h, ops)
 			} else {
 				replayCases(h, ops)
